@@ -242,6 +242,44 @@ def _explore(out, tier, seed, facts, replay=None):
                 if [int(a), int(b), int(c), int(d)] != [wa, wb, wc, wd]:
                     out.violation("contingency-table-events:%s" % bt, "abcd=%r expected %r for -b %s %r" % ([a, b, c, d], [wa, wb, wc, wd], bt, (t, u)),
                                   {"bin_type": bt, "t": t, "u": u, "obs": [repr(x) for x in grid]})
+    # ---- the events as the outputs use them: -hist counts per bin for every bin type, values ON the thresholds included ----
+    import os
+    import shutil
+    import sys
+    import tempfile
+    import p_c17
+    tdir = tempfile.mkdtemp(prefix="verif_c07_", dir=os.environ.get("VERIF_SCRATCH") or None)
+    try:
+        sys.path.insert(0, common.REPO)
+        fn = os.path.join(tdir, "h.txt")
+        vals_h = [0.0, 0.0, 1.0, 2.0, 2.0, 2.0, 3.0, 4.0, 4.0, 5.0, -1.0, 2.5]
+        with open(fn, "w") as f:
+            f.write("unixtime leadtime location obs fcst\n")
+            for i_, v_ in enumerate(vals_h):
+                f.write("%d 0 1 %r %r\n" % (1325376000 + 86400 * i_, v_, v_ + 1.0))
+        runner = p_c17.Runner(tdir)
+        try:
+            for bt in BTS:
+                for thr in ([0.0, 2.0, 4.0], [2.0, 1.0, 4.0] if "within" not in bt else [0.0, 2.0, 5.0], [-1.0, 0.0, 2.0, 4.0]):
+                    argv = ["verif", fn, "-m", "obs", "-hist", "-b", bt, "-r", ",".join("%g" % t for t in thr), "-f", os.path.join(tdir, "h.png")]
+                    st_, info_ = runner.run(argv)
+                    nfals += 1
+                    if st_ != "ok" or runner.cap.get("fig") is None:
+                        out.violation("hist-run:%s" % bt, "verif -m obs -hist -b %s -r %s ends with %s %s" % (bt, thr, st_, info_), {"bin_type": bt, "thresholds": thr, "values": vals_h})
+                        continue
+                    lines_ = [l for l in runner.cap["fig"].axes[0].get_lines() if l.get_label() == "h.txt"]
+                    pairs_ = list(zip(thr, thr[1:])) if "within" in bt else [(t, t) for t in thr]
+                    cnt = [sum(1 for x in vals_h if doc_event(bt, t, u, x)) for t, u in pairs_]
+                    want_ = [100.0 * c / sum(cnt) if sum(cnt) else NAN for c in cnt]
+                    got_ = [float(y) for y in lines_[0].get_ydata()] if lines_ else None
+                    if got_ is None or len(got_) != len(want_) or not all(close(a, b) for a, b in zip(got_, want_)):
+                        out.violation("hist-events:%s" % bt, "verif -m obs -hist -b %s -r %s on the values %r draws %r %%, the documented events give the counts %r = %r %%"
+                                      % (bt, thr, vals_h, got_, cnt, want_), {"bin_type": bt, "thresholds": thr, "values": vals_h})
+        finally:
+            runner.close()
+            runner.mpl.close("all")
+    finally:
+        shutil.rmtree(tdir, ignore_errors=True)
     stats.update({
         "evaluations": len(exprs) + nfals,
         "distinct_nontrivial": len(distinct),
